@@ -133,6 +133,86 @@ theorem handle_writes_typed (ext : Ext) (cfg : Cfg) (st : Store) (led : Ledger) 
     obtain ⟨_, _, _, _, rfl⟩ := (updateSignatureThreshold_ok ..).mp h
     intro w hw v hv; simp [C15.adminOut_writes] at hw; subst hw; simp at hv; subst hv; simp [ValOK]
 
+/-- the only entries a handler ever deletes are the pending owner, an attester, a token pair or a remote token
+    messenger: no role and no scalar parameter is ever removed. -/
+theorem handle_deletes_cls (ext : Ext) (cfg : Cfg) (st : Store) (led : Ledger) (m : Msg) (o : Out)
+    (h : handle ext cfg st led m = .ok o) :
+    ∀ w ∈ o.writes, w.2 = none → Key.cls w.1 = 1 ∨ Key.cls w.1 = 10 ∨ Key.cls w.1 = 13 ∨ Key.cls w.1 = 14 := by
+  cases m with
+  | acceptOwner f =>
+    obtain ⟨owner, _, _, rfl⟩ := (acceptOwner_ok ..).mp h
+    intro w hw hn; simp [C15.adminOut_writes] at hw
+    rcases hw with rfl | rfl
+    · simp at hn
+    · simp
+  | addRemoteTokenMessenger f d a =>
+    obtain ⟨_, _, _, rfl⟩ := (addRemoteTokenMessenger_ok ..).mp h
+    intro w hw hn; simp [C15.adminOut_writes] at hw; subst hw; simp at hn
+  | depositForBurn f a d r t =>
+    intro w hw hn; rw [C15.depositForBurn_writes h] at hw; simp at hw; subst hw; simp at hn
+  | depositForBurnWithCaller f a d r t c =>
+    obtain ⟨_, _, h'⟩ := (depositForBurnWithCaller_ok ..).mp h
+    intro w hw hn; rw [C15.depositForBurn_writes h'] at hw; simp at hw; subst hw; simp at hn
+  | disableAttester f a =>
+    obtain ⟨_, _, _, _, t, _, _, rfl⟩ := (disableAttester_ok ..).mp h
+    intro w hw hn; simp [C15.adminOut_writes] at hw; subst hw; simp
+  | enableAttester f a =>
+    obtain ⟨_, _, _, rfl⟩ := (enableAttester_ok ..).mp h
+    intro w hw hn; simp [C15.adminOut_writes] at hw; subst hw; simp at hn
+  | linkTokenPair f d t l =>
+    obtain ⟨_, _, _, rfl⟩ := (linkTokenPair_ok ..).mp h
+    intro w hw hn; simp [C15.adminOut_writes] at hw; subst hw; simp at hn
+  | pauseBurning f =>
+    obtain ⟨_, rfl⟩ := (setFlag_ok ..).mp h
+    intro w hw hn; simp [C15.adminOut_writes] at hw; subst hw; simp at hn
+  | pauseSending f =>
+    obtain ⟨_, rfl⟩ := (setFlag_ok ..).mp h
+    intro w hw hn; simp [C15.adminOut_writes] at hw; subst hw; simp at hn
+  | receiveMessage f msg att =>
+    obtain ⟨m, hp, hw'⟩ := C15.receiveMessage_writes h
+    intro w hw hn; rw [hw'] at hw; simp at hw; subst hw; simp at hn
+  | removeRemoteTokenMessenger f d =>
+    obtain ⟨_, mm, _, rfl⟩ := (removeRemoteTokenMessenger_ok ..).mp h
+    intro w hw hn; simp [C15.adminOut_writes] at hw; subst hw; simp
+  | replaceDepositForBurn f o' a c r =>
+    intro w hw; rw [C15.replaceDepositForBurn_writes h] at hw; simp at hw
+  | replaceMessage f o' a b c =>
+    intro w hw; rw [C15.replaceMessage_writes h] at hw; simp at hw
+  | sendMessage f d r b =>
+    intro w hw hn; rw [C15.sendMessage_writes h] at hw; simp at hw; subst hw; simp at hn
+  | sendMessageWithCaller f d r b c =>
+    intro w hw hn; rw [C15.sendMessageWithCaller_writes h] at hw; simp at hw; subst hw; simp at hn
+  | unlinkTokenPair f d t l =>
+    obtain ⟨_, _, p, _, rfl⟩ := (unlinkTokenPair_ok ..).mp h
+    intro w hw hn; simp [C15.adminOut_writes] at hw; subst hw; simp
+  | unpauseBurning f =>
+    obtain ⟨_, rfl⟩ := (setFlag_ok ..).mp h
+    intro w hw hn; simp [C15.adminOut_writes] at hw; subst hw; simp at hn
+  | unpauseSending f =>
+    obtain ⟨_, rfl⟩ := (setFlag_ok ..).mp h
+    intro w hw hn; simp [C15.adminOut_writes] at hw; subst hw; simp at hn
+  | updateOwner f n =>
+    obtain ⟨_, _, rfl⟩ := (updateOwner_ok ..).mp h
+    intro w hw hn; simp [C15.adminOut_writes] at hw; subst hw; simp at hn
+  | updateAttesterManager f n =>
+    obtain ⟨_, _, cur, _, rfl⟩ := (updateRole_ok ..).mp h
+    intro w hw hn; simp [C15.adminOut_writes] at hw; subst hw; simp at hn
+  | updateTokenController f n =>
+    obtain ⟨_, _, cur, _, rfl⟩ := (updateRole_ok ..).mp h
+    intro w hw hn; simp [C15.adminOut_writes] at hw; subst hw; simp at hn
+  | updatePauser f n =>
+    obtain ⟨_, _, cur, _, rfl⟩ := (updateRole_ok ..).mp h
+    intro w hw hn; simp [C15.adminOut_writes] at hw; subst hw; simp at hn
+  | updateMaxMessageBodySize f s =>
+    obtain ⟨_, rfl⟩ := (updateMaxMessageBodySize_ok ..).mp h
+    intro w hw hn; simp [C15.adminOut_writes] at hw; subst hw; simp at hn
+  | setMaxBurnAmountPerMessage f l a =>
+    obtain ⟨_, rfl⟩ := (setMaxBurnAmountPerMessage_ok ..).mp h
+    intro w hw hn; simp [C15.adminOut_writes] at hw; subst hw; simp at hn
+  | updateSignatureThreshold f a =>
+    obtain ⟨_, _, _, _, rfl⟩ := (updateSignatureThreshold_ok ..).mp h
+    intro w hw hn; simp [C15.adminOut_writes] at hw; subst hw; simp at hn
+
 theorem good_deliver (ext : Ext) (cfg : Cfg) (w : World) (f : List Bool) (m : Msg) (h : Good ext w.store) :
     Good ext (deliver ext cfg w f m).1.store := by
   unfold deliver
